@@ -510,7 +510,7 @@ fn main() {
         Some("c17_commit_after_tail") => c17_commit_after_tail(&[0x01, 0x02]),
         Some("c18_node_table_spill") => c18_node_table_spill(),
         Some("c18_ownership_mix_quick") => c18_ownership_mix(6, 60),
-        Some("c18_ownership_mix_thorough") => c18_ownership_mix(60, 150),
+        Some("c18_ownership_mix_thorough") => c18_ownership_mix(30, 120),
         Some("c26_multimap_quick") => c26_multimap_sweep(3, 400),
         Some("c26_multimap_thorough") => c26_multimap_sweep(40, 1500),
         Some("c28_vacuum_after_compact") => c28_vacuum_after_compact(),
